@@ -2025,9 +2025,11 @@ class Union(OR):
                     if self._yield_when_false_:
                         yield from self.evaluate_right(output)
                     continue
+                # (what is cached does not depend on who asks: another query that shares this condition needs other
+                # variables and takes other outputs for repetitions)
+                self.update_cache(output, self._cache_)
                 if self._is_duplicate_output_(output):
                     continue
-                self.update_cache(output, self._cache_)
                 yield output
         finally:
             self.left._eval_parent_ = left_prev
@@ -2046,11 +2048,11 @@ class Union(OR):
                 self._is_false_ = self.left._is_false_ and self.right._is_false_
             else:
                 self._is_false_ = False
+            self.update_cache(sources, self._cache_)
             if not self._is_false_:
                 if self._is_duplicate_output_(sources):
                     continue
             self.right_evaluated = True
-            self.update_cache(sources, self._cache_)
             yield sources
 
 
@@ -2093,10 +2095,10 @@ class ElseIf(OR):
                             output.update(right_value)
                             if self._is_false_ and not self._yield_when_false_:
                                 continue
+                            self.update_cache(right_value, self.right_cache)
                             if not self._is_false_:
                                 if self._is_duplicate_output_(output):
                                     continue
-                            self.update_cache(right_value, self.right_cache)
                             yield output
                         self.mark_cache_covered(left_value, self.right_cache)
                     finally:
